@@ -162,6 +162,25 @@ def finishUnwind (f : Fiber) : Option (List (Nat × Nat) × Fiber) :=
   | h :: _ => some (errorBacktrace f h, { f with frames := f.frames.take h.depth, backtraceIps := [] })
   | [] => none
 
+/-- `Fiber::print_error`: the instruction pointer reported for the `index`-th frame counted from the
+top (`self.frames.iter().rev().enumerate()`).  Which one that is, is the generated
+`Gen.tracebackIpSource`: `match self.backtrace_ips.get(index) { Some(ip) => *ip, None => frame.ip() }`
+— the ip `pause_unwind` saved when the search for a handler reached the frame (`stack_unwind` then
+redirects the frame's own ip into its catch clause, and a declining clause leaves it there), and the
+frame's own ip for the frames the search never reached. -/
+def tracebackIp (f : Fiber) (index : Nat) (fr : Frame) : Nat :=
+  match tracebackIpSource with
+  | .savedElseLive =>
+    match f.backtraceIps[index]? with
+    | some ip => ip
+    | none => fr.ip
+  | .live => fr.ip
+
+/-- `Fiber::print_error`: (function, offset handed to `get_line`) per line of the traceback,
+innermost frame first. -/
+def tracebackEntries (f : Fiber) : List (Nat × Nat) :=
+  f.frames.reverse.mapIdx fun index fr => (fr.fn, reportOffset (tracebackIp f index fr))
+
 /-- `op_continue_unwind`: pop the handler (the `RuntimeError` signal then re-enters
 `Vm::stack_unwind`). -/
 def continueUnwind (f : Fiber) : Fiber := { f with handlers := f.handlers.tail }
@@ -185,7 +204,8 @@ instruction pointer into the current frame (`g`): search with `Fiber::stack_unwi
 met either matches (`true`: `CheckHandler` falls through to `FinishUnwind`) or not (`false, ip'`:
 `ContinueUnwind` executes at offset `ip'` inside that catch clause, pops the handler, signals
 `RuntimeError` again, and `Vm::stack_unwind` stores `ip'` into the current frame — the one the
-handler belongs to — before searching on). -/
+handler belongs to — before searching on; the ip that frame was suspended at survives in
+`backtraceIps` only). -/
 def unwindFrom (bottom : Option Nat) (g : Fiber) : List (Bool × Nat) → Outcome
   | [] =>
     match stackUnwind g bottom with
@@ -258,13 +278,13 @@ def frameLine (fi : FunInfo) (offset : Nat) : String :=
 def backtraceText (funs : Nat → FunInfo) (bt : List (Nat × Nat)) : List String :=
   bt.map fun (fn, off) => frameLine (funs fn) off
 
-/-- `Fiber::print_error`: the lines written to stderr. -/
-def printError (funs : Nat → FunInfo) (frames : List Frame) (cls msg : String) : List String :=
+/-- `Fiber::print_error`: the lines written to stderr, one per entry of `tracebackEntries`. -/
+def printError (funs : Nat → FunInfo) (f : Fiber) (cls msg : String) : List String :=
   ["Traceback (most recent call last):"] ++
-  (frames.reverse.map fun fr =>
-    let fi := funs fr.fn
+  ((tracebackEntries f).map fun (fn, offset) =>
+    let fi := funs fn
     let location := if fi.name = "script" then "script" else s!"{fi.name}()"
-    s!"  {fi.path}:{showLine fi.lines (reportOffset fr.ip)} in {location}") ++
+    s!"  {fi.path}:{showLine fi.lines offset} in {location}") ++
   [s!"{cls}: {msg}"]
 
 /-! ## 5. Exit status -/
